@@ -76,7 +76,7 @@ func randomScenario(r *rand.Rand, idx int, epochs int) scenario {
 		s.Stolen = r.Intn(s.PopSize/2 + 1)
 	}
 	s.Surv = []float64{0.2, 0.25, 0.5, 0.1, 0.75, 1.0, 0.33, 0.6}[r.Intn(8)]
-	s.AgeSig = []float64{1.0, 1.5, 2.0, 1.1}[r.Intn(4)]
+	s.AgeSig = []float64{1.0, 1.5, 2.0, 1.1, 0.5, 0.8}[r.Intn(6)]
 	s.Persist = idx%4 < 3
 	if idx%3 == 1 && epochs >= 2 {
 		s.Switch = 2 + (idx/3)%(epochs-1)
@@ -151,6 +151,15 @@ func assignFitness(r *rand.Rand, family string, gen int, pop *genetics.Populatio
 		}
 		o.Fitness = f
 	}
+	// what an evaluator leaves in the organisms besides the fitness: winner flags (on organisms that need not be the
+	// fittest), error values, a built phenotype.  A turnover is governed by the fitness values.
+	for i, o := range pop.Organisms {
+		o.IsWinner = (i*7+gen*3)%5 == 0
+		o.Error = float64((i*13+gen)%7) / 7
+		if (i+gen)%3 == 0 {
+			_, _ = o.Phenotype()
+		}
+	}
 }
 
 type phaseObserver struct {
@@ -177,7 +186,7 @@ func runEpochs(s *scenario, r *rand.Rand, optsVar **neat.Options, pop *genetics.
 			n.CompatThreshold *= []float64{0.5, 2, 0.75, 3}[k]
 			n.DisjointCoeff, n.ExcessCoeff, n.MutdiffCoeff = []float64{2, 1, 0.5, 1}[k], []float64{1, 2, 1, 0.5}[k], []float64{0.4, 1, 0.2, 0.8}[k]
 			n.SurvivalThresh = []float64{0.5, 0.2, 0.9, 0.34}[k]
-			n.AgeSignificance = []float64{2.0, 1.0, 1.25, 1.5}[k]
+			n.AgeSignificance = []float64{2.0, 0.6, 1.25, 1.5}[k]
 			n.DropOffAge = n.DropOffAge + []int{2, -1, 5, 1}[k]
 			if n.DropOffAge < 1 {
 				n.DropOffAge = 1
